@@ -1,6 +1,7 @@
 package worlds
 
 import (
+	"bytes"
 	"encoding/json"
 	"errors"
 	"fmt"
@@ -67,6 +68,8 @@ type bOp struct {
 	Expired  bool
 	Dup      bool
 	Suffix   string
+	// Compact: the client spells the large numbers of this request as 1e20 (the request is shorter than its canonical form)
+	Compact bool
 }
 
 type bDID struct {
@@ -127,20 +130,22 @@ type bWorld struct {
 	writer     *batch.Writer
 	handler    *dochandler.DocumentHandler
 	update     *restdoc.UpdateHandler
+	// tightOps: the operation size limit of this run is close to the size of ordinary requests
+	tightOps bool
 	// intakeProtoDown: the REST layer's protocol client fails its next Current call
 	intakeProtoDown bool
-	router     *mux.Router
-	obs        *observer.Observer
-	sub        *simenv.Subscription
-	proc       *processor.OperationProcessor
-	tv         *simenv.SimTimeValidator
+	router          *mux.Router
+	obs             *observer.Observer
+	sub             *simenv.Subscription
+	proc            *processor.OperationProcessor
+	tv              *simenv.SimTimeValidator
 
-	monCh, toCh chan time.Time
+	monCh, toCh  chan time.Time
 	redeliveries int
 	curDID       *bDID // the DID whose client is building an operation right now
-	pendingTick string
-	passKind    string // the kind of the writer pass in progress ("startup", "monitor", "timeout")
-	maxOps      uint
+	pendingTick  string
+	passKind     string // the kind of the writer pass in progress ("startup", "monitor", "timeout")
+	maxOps       uint
 
 	dids     []*bDID
 	ops      []*bOp
@@ -211,6 +216,14 @@ func runWorldB(rc *RunCtx, prop string) *RunResult {
 	// ---- swarm configuration
 	maxOps := uint(T.Range(1, 5, "cfg.maxOps"))
 	nVersions := 1 + T.Draw(3, "cfg.versions")
+
+	// the operation size limit is mostly far away; in some runs it is close to the size of ordinary requests (larger ones
+	// are then rightly refused at intake)
+	maxOpSize := uint(20000)
+	if T.Draw(6, "cfg.tight-opsize") == 0 {
+		maxOpSize = uint(1400 + 100*T.Draw(10, "cfg.tight-opsize.value"))
+		w.tightOps = true
+	}
 	nDIDs := 1 + T.Draw(4, "cfg.dids")
 	nClients := 1 + T.Draw(3, "cfg.clients")
 	opsPerDID := 1 + T.Draw(6, "cfg.opsPerDid")
@@ -391,7 +404,7 @@ func runWorldB(rc *RunCtx, prop string) *RunResult {
 		p := simenv.DefaultProtocol(g)
 		p.MaxOperationCount = maxOps
 		w.maxOps = maxOps
-		p.MaxOperationSize = 20000
+		p.MaxOperationSize = maxOpSize
 		p.MaxDeltaSize = uint(3000 + 500*i)
 		p.MaxOperationTimeDelta = uint64(30 + 17*i)
 		// every version enables both hash algorithms (a DID keeps the algorithm it was created with); the primary one varies
@@ -1074,12 +1087,20 @@ func (w *bWorld) clientStep(d *bDID) {
 
 	var nu, nr *workload.Key
 
+	compact := false
+
 	switch typ {
 	case operation.TypeUpdate:
 		spec.SignKey = d.Upd
 		nu = w.newKey(d)
 		spec.NextUpdate = nu
 		pd = w.genPatches(false)
+
+		// with the size limit close: a service entry full of large numbers, which the client will spell compactly
+		if w.tightOps && k.Draw(2, "client.bignumbers") == 0 {
+			pd = []workload.PatchDesc{{Kind: workload.AddSvc, IDs: []string{workload.SvcIDs()[0]}, Mark: "w" + w.nextMark()}}
+			compact = true
+		}
 	case operation.TypeRecover:
 		spec.SignKey = d.Rec
 		nu, nr = w.newKey(d), w.newKey(d)
@@ -1132,6 +1153,7 @@ func (w *bWorld) clientStep(d *bDID) {
 
 	op := w.newOp(d, typ, req, m)
 	op.hash, op.revealHash = opHash, revealAlg
+	op.Compact = compact
 	w.parseBack(op, v, spec.SignKey, nil, nu, nr, pd, spec.AnchorOrigin, spec.From, spec.Until)
 
 	if spec.From != 0 || spec.Until != 0 {
@@ -1298,18 +1320,25 @@ func (w *bWorld) submit(op *bOp) {
 
 	putsBefore, cleanupsBefore := w.store.PutN, w.unpub.DeleteAllN
 
+	if op.Compact {
+		op.Req = bytes.ReplaceAll(op.Req, []byte(workload.BigNumber), []byte("1e20"))
+		k.Count("probe:request-shorter-than-its-canonical-form")
+	}
+
 	// now and then the request is exactly as large as the protocol allows (sent with trailing whitespace)
 	if max := int(w.proto.CurrentVersion().P.MaxOperationSize); op.Byz == "" && !op.Dup && len(op.Req)+1 < max && k.Draw(15, "submit.maxsize") == 0 {
 		pad := max - len(op.Req)
 		lead := []string{"", "\n", " \r\n\t"}[k.Draw(3, "submit.maxsize.lead")]
 
-		if len(lead) > pad {
+		if len(lead) >= pad {
 			lead = ""
 		}
 
 		op.Req = append(append([]byte(lead), op.Req...), []byte(strings.Repeat(" ", pad-len(lead)-1)+"\n")...)
 		k.Count("probe:request-of-exactly-maximum-size")
 	}
+
+	sizeAtSubmission := len(op.Req)
 
 	code, body := w.post(op.Req)
 	op.Status = code
@@ -1430,6 +1459,12 @@ func (w *bWorld) submit(op *bOp) {
 			if now < op.M.From || now > until {
 				legit = true
 			}
+		}
+
+		// larger than the protocol admits
+		if uint(sizeAtSubmission) > w.proto.CurrentVersion().P.MaxOperationSize {
+			legit = true
+			k.Count("probe:refused-for-its-size")
 		}
 
 		// a retried request may arrive after a protocol switch to a version that does not know one of its patch actions
@@ -1579,6 +1614,10 @@ func (w *bWorld) parseBack(op *bOp, v *simenv.Version, signKey, _ *workload.Key,
 
 	if op.hash != 0 {
 		hash, revealHash = op.hash, op.revealHash
+	}
+
+	if uint(len(op.Req)) > v.P.MaxOperationSize {
+		return // (larger than the protocol admits: the node will refuse it, and so does the parser)
 	}
 
 	mop, err := v.Parser.ParseOperation(bNS, op.Req, true)
